@@ -276,6 +276,14 @@ func runC14(c *fw.Case) {
 	if r.Intn(3) == 0 {
 		opts = append(opts, sstables.DataCompressionType(r.Intn(4)), sstables.IndexCompressionType(r.Intn(4)))
 	}
+	// the caller's bloom filter settings: lax probabilities and small / large expectations are valid options
+	if r.Intn(3) == 0 {
+		opts = append(opts, sstables.BloomFalsePositiveProbability(gen.Pick(r, 0.01, 0.5, 0.7, 0.9)))
+		c.Obs("flushes_with_bloom_options", 1)
+	}
+	if r.Intn(5) == 0 {
+		opts = append(opts, sstables.BloomExpectedNumberOfElements(uint64(gen.Pick(r, 10, 1000000))))
+	}
 	var err error
 	if withTomb {
 		err = m.FlushWithTombstones(opts...)
